@@ -44,7 +44,7 @@ def plan(tier):
     return {"cases": 400 if tier == "quick" else 10000, "shards": 16, "case_timeout": 60, "shard_timeout": 3000,
             "min_nontrivial": 60,
             "min_counters": {"diagrams_built": 300, "fields_classified": 2500, "association_edges_checked": 600,
-                             "inheritance_edges_checked": 200, "contract_evaluations": 1500}}
+                             "inheritance_edges_checked": 200, "contract_evaluations": 1500, "fields_with_two_wrappers": 40}}
 
 
 class Mutated(AssertionError):
@@ -132,7 +132,10 @@ def witnesses():
     f = lambda n, k, t=None: {"name": n, "kind": k, "target": t}
     spec = {"module": "dw_subdiagram", "order": ["K0", "K1", "K2"], "profile": "diagram", "classes": [
         cl("K0", None, [f("uid", "int"), f("f0_0", "list_ref", "K2")]), cl("K1", "K0", [f("f1_0", "int")]), cl("K2", None, [f("uid", "int")])]}
+    two = {"module": "dw_twowrappers", "order": ["K0", "K1"], "profile": "diagram", "classes": [
+        cl("K0", None, [f("uid", "int"), f("f0_0", "opt_list_ref", "K1"), f("f0_1", "list_opt_ref", "K1")]), cl("K1", None, [f("uid", "int")])]}
     return {"subdiagram-mutates-original": {"spec": spec, "subset": ["K0", "K1", "K2"], "ops": ["subdiagram"], "arg": 0},
+            "type-behind-two-wrappers-not-seen": {"spec": two, "subset": ["K0", "K1"], "ops": [], "arg": 0},
             "class-listed-twice-is-two-nodes": {"spec": spec, "subset": ["K0", "K1", "K2"], "ops": ["subdiagram"], "arg": 0, "repeat": 0}}
 
 
@@ -149,14 +152,22 @@ def independent_analysis(mod, classes):
                 continue
             t = hints[f.name]
             origin, args = typing.get_origin(t), typing.get_args(t)
-            optional = origin in (typing.Union, types.UnionType) and len(args) == 2 and type(None) in args
-            container = origin in (list, set, tuple)
-            type_valued = origin is type
+            def opt(tt):
+                o, a = typing.get_origin(tt), typing.get_args(tt)
+                return o in (typing.Union, types.UnionType) and len(a) == 2 and type(None) in a
+
+            optional = opt(t)
             end = t
             if optional:
                 end = [a for a in args if a is not type(None)][0]
-            elif container or type_valued:
-                end = args[0]
+            # seen through Optional AND container wrappers: Optional[List[X]], List[Optional[X]]
+            container = typing.get_origin(end) in (list, set, tuple)
+            type_valued = typing.get_origin(end) is type
+            if container or type_valued:
+                end = typing.get_args(end)[0]
+                if container and opt(end):
+                    end = [a for a in typing.get_args(end) if a is not type(None)][0]
+            C_two = optional and container
             is_enum = (not container) and isinstance(end, type) and issubclass(end, enum.Enum) and not type_valued
             builtin = end in (int, float, str, bool, datetime, type(None))
             fl = {"optional": optional, "container": container or type_valued, "enum": is_enum, "builtin": builtin,
@@ -165,6 +176,7 @@ def independent_analysis(mod, classes):
                 assoc[(c.__name__, f.name)] = end.__name__
                 fl["one_to_one"] = not (container or type_valued)
                 fl["one_to_many"] = container
+            fl["_two_wrappers"] = C_two or (container and opt(typing.get_args(t if not optional else [a for a in args if a is not type(None)][0])[0]))
             flags[(c.__name__, f.name)] = fl
     return inherit, assoc, flags
 
@@ -287,6 +299,8 @@ def run(case, ctx):
                 if fl is None:
                     problems.append(f"diagram lists field {k} which is not a public dataclass field")
                     continue
+                fl = dict(fl)
+                C["fields_with_two_wrappers"] += bool(fl.pop("_two_wrappers", False))
                 C["fields_classified"] += 1
                 try:
                     got = {"optional": bool(wf.is_optional), "container": bool(wf.is_container), "enum": bool(wf.is_enum),
